@@ -299,7 +299,10 @@ pub fn parse_linked_list(to_parse: &str) -> Result<Unifiable, String> {
                         return Err(err);
                     }
 
-                    match make_logic_var(term_str2.to_string()) {
+                    // The tail may be the anonymous variable: [a | $_]
+                    let tail = if term_str2 == "$_" { Ok(Unifiable::Anonymous) }
+                               else { make_logic_var(term_str2.to_string()) };
+                    match tail {
                         Err(_) => {
                             let err = pll_error(
                                      "Require variable after vertical bar", s);
